@@ -930,7 +930,15 @@ func (s *Session) Exec(op Op) (line string) {
 		if m == nil {
 			return "bad-op"
 		}
-		return s.w.Deliver(m, parseFaults(kv.get("faults"))).line()
+		o := s.w.Deliver(m, parseFaults(kv.get("faults")))
+		if s.w.inBatch && o.out != "ok" {
+			s.w.batchFailed = true
+		}
+		return o.line()
+	case "begin":
+		return s.w.Begin()
+	case "end":
+		return s.w.End()
 	case "sim":
 		m := buildMsg(op.Sub, kv)
 		if m == nil {
